@@ -65,6 +65,28 @@ fn main() {
                 std::process::exit(2);
             }
             let ctx = mon::take_ctx();
+            // monitor hits -> violations of the property being checked
+            for h in &ctx.hits {
+                let rp = json!({"kind":"monitor-hit","monitor":format!("{:?}", h.kind),"entry":h.entry,"case":h.case,"detail":h.detail});
+                match h.kind {
+                    mon::HitKind::Panic => rep.violation(
+                        format!("{}:unexpected-panic:{}", prop, h.entry),
+                        format!("API call {} panicked on valid input: {} (case {})", h.entry, h.detail, h.case),
+                        rp,
+                    ),
+                    mon::HitKind::Range if prop == "C04" => rep.violation(
+                        format!("C04:range-observer:{}", h.entry),
+                        format!("{} returned {} (case {})", h.entry, h.detail, h.case),
+                        rp,
+                    ),
+                    mon::HitKind::Alloc if prop == "C18" => rep.violation(
+                        format!("C18:heap-allocation:{}", h.entry),
+                        format!("{}: {} (case {})", h.entry, h.detail, h.case),
+                        rp,
+                    ),
+                    _ => rep.count(&format!("monitor_hits_not_decided_here_{:?}", h.kind), 1),
+                }
+            }
             let mut j = rep.to_json();
             let o = j.as_object_mut().unwrap();
             o.insert("property".into(), json!(prop));
